@@ -29,6 +29,8 @@ static std::string mk_string(int id) {
     std::string s = "v" + std::to_string(id);
     if (id % 3 == 0) s += std::string(40, 'x');     // heap-allocated: a dangling reference is a use-after-free
     if (id == 1) s = "";                              // the empty string is a value too
+    if (id % 5 == 4) s += std::string(256 + id % 300, static_cast<char>('a' + id % 7));   // longer than any domain name (large RDATA)
+    if (id == 2) s = std::string(255, 'n');           // ... and exactly the longest name
     return s;
 }
 static ClassType mk_ct(int id) { ClassType c; c.type = id / 2; c.class_ = id % 2; return c; }
